@@ -53,12 +53,14 @@ def _case(draw):
             spec['raw']['chunk'] = max(spec['raw']['chunk'], int(ceil(spec['n_raw'] / 18.0)))
         return {'k': 'single', 'spec': spec, 'factor': factor, 'ncc': draw(st.integers(2, 12)),
                 'second_factor': draw(st.sampled_from([None, None, 1, 2.34375e-06, 3])),
-                'reexport': draw(st.none() | st.lists(D._curation_op, min_size=1, max_size=3))}
+                'reexport': draw(st.none() | st.lists(D._curation_op, min_size=1, max_size=3)),
+                'edit_before': draw(st.booleans())}
     mc = draw(G.merge_case(exclude_f13=True))
     for p in mc['probes']:
         p['templates']['int'] = False
     ncc = draw(st.integers(2, min(p['nc'] for p in mc['probes'])))
-    return {'k': 'merged', 'probes': mc['probes'], 'factor': factor, 'ncc': ncc}
+    return {'k': 'merged', 'probes': mc['probes'], 'factor': factor, 'ncc': ncc,
+            'edit_before': draw(st.booleans())}
 
 
 def _large_cases(th):
@@ -308,11 +310,29 @@ def _check(case):
             chmaps = [T.chmap for T in Ts]
             rate = Ts[0].rate
             shanks = False      # (merged data: the cluster waveforms are taken from the model)
+            # un-whitening of merged data is probe by probe: the inverse of each probe's own
+            # whitening matrix (its file if it has one), whatever the merger wrote
+            from .c12 import _blockdiag
+            # (only when every probe has a whitening matrix: otherwise the merged dataset has none)
+            true_wmi = _blockdiag([np.asarray(D.wmi_of(T), dtype=np.float64) for T in Ts]) \
+                if all(T.wm is not None for T in Ts) else None
         m = load_with_ncc(src / 'params.py', case['ncc'])
         mt = getattr(getattr(m, 'traces', None), 'reader', None)
         om = None
         try:
             S = Source(src, rate)
+            if case['k'] == 'merged' and true_wmi is not None:
+                S.wmi = true_wmi
+            # what the model handed out earlier is the caller's: sorting / rescaling it in place
+            # must not change what is exported afterwards
+            if case.get('edit_before'):
+                for name in ('clusters_channels', 'templates_channels', 'templates_amplitudes',
+                             'clusters_amplitudes', 'templates_waveforms_durations'):
+                    core.scribble(must_return(name, lambda: getattr(m, name)))
+                with core.without('fp', 'warn'):
+                    core.scribble(must_return('get_depths', m.get_depths))
+                core.scribble(list(must_return('get_amplitudes_true', m.get_amplitudes_true)))
+                info['edited_before'] = True
             np.random.seed(12345)
             creator = must_return('EphysAlfCreator()', EphysAlfCreator, m)
             out = d / 'alf'
@@ -391,6 +411,8 @@ def classify(case, info):
         nt = True
     if info.get('reexported'):
         labels.append('re-export-into-same-directory')
+    if info.get('edited_before'):
+        labels.append('accessor-results-edited-in-place-before-export')
     if info.get('multi_checked'):
         labels.append('multi-template-cluster-waveform-recomputed')
     if case['k'] == 'single' and case['spec']['templates'].get('footprint'):
